@@ -509,3 +509,8 @@ Proof. reflexivity. Qed.
 Lemma src_bc_PutRegion_ok : src_bc_PutRegion =
   "{ v0.Lock() defer v0.Unlock() if v1.term == 0 { if v2 := v0.Regions.GetRegion(v1.GetID()); v2 != nil { v1.term = v2.term } } return v0.Regions.SetRegion(v1) }".
 Proof. reflexivity. Qed.
+
+(* server/cluster/cluster.go: (RaftCluster).DropCacheRegion, body *)
+Lemma src_rc_DropCacheRegion_ok : src_rc_DropCacheRegion =
+  "{ v0.RLock() defer v0.RUnlock() if v2 := v0.GetRegion(v1); v2 != nil { v0.core.RemoveRegion(v2) } }".
+Proof. reflexivity. Qed.
